@@ -517,7 +517,9 @@ func (c *chainRun) checkC03(i int, op Op) {
 			if tx != nil {
 				// it resolves although no canonical block (up to the block head) contains it
 				class := "tx-lookup-resolves-for-non-canonical-tx"
-				if c.fellBack[op.Node] {
+				// the recorded finding needs an import that re-routes the chain after the
+				// fallback; a lookup that survives the rewind itself is a different defect
+				if c.fellBack[op.Node] && op.Kind != "sethead" {
 					class += "/after-sethead-fell-back-below-stored-bodies"
 				}
 				c.add(class, i, "node %d after op %d (%s %v): tx %x resolves to block %x #%d but is in no canonical block (block head id %d #%d)", op.Node, i, op.Kind, op.Blocks, h[:4], bh[:4], bn, bid, u.Blocks[bid].NumberU64())
